@@ -101,6 +101,20 @@ class SpyClock(Clock):
             dc.cancel = cancel
         return dc
 
+    def advance(self, amount):
+        """like a reactor: an exception escaping from a delayed call is logged (here: observed as `exc`),
+        and the remaining calls still run"""
+        self.rightNow += amount
+        self._sortCalls()
+        while self.calls and self.calls[0].getTime() <= self.seconds():
+            call = self.calls.pop(0)
+            call.called = 1
+            try:
+                call.func(*call.args, **call.kw)
+            except Exception as e:
+                self.sim.obs("exc %s" % type(e).__name__)
+            self._sortCalls()
+
 
 class SpyNet(Net):
     sim = None
@@ -243,7 +257,14 @@ def make_spy(sim):
 
         def _sendQueued(self):
             sim.note_conn(self, True)
-            return _KafkaBrokerClient._sendQueued(self)
+            try:
+                return _KafkaBrokerClient._sendQueued(self)
+            finally:
+                # outside a step (a connection came up): the write annotations belong to the step just
+                # recorded (`conn b 1`, or the completion of a request that expects no reply)
+                if sim.depth == 0 and sim.pending_annot and sim.steps:
+                    sim.steps[-1]["obs"].extend(sim.pending_annot)
+                    sim.pending_annot = []
 
         def _sendRequest(self, tReq):
             if tReq.expectResponse or sim.depth > 0:
@@ -290,17 +311,27 @@ class _Step(object):
             line += " sh=" + "/".join(".".join(str(i) for i in p) if p else "" for p in s.cur_env["sh"])
         if s.cur_env["sd"]:
             line += " sd=" + ",".join(str(b) for b in s.cur_env["sd"])
+        if line.startswith("close "):
+            # close() iterates a SET of Deferreds: the order is the environment's choice, told to the model
+            rd = [o.split(":")[1] for o in s.cur_obs if o.startswith("cancelTimer retry:")]
+            if len(rd) > 1:
+                line += " rd=" + ",".join(rd)
         st = {"line": line, "obs": s.cur_obs, "dump": CC.dump_real(s.client), "timers": s.timers_line(), "t": s.clock.seconds()}
-        if et is not None:
+        swallow = False
+        if et is not None and issubclass(et, Exception):
+            # like a reactor: an exception escaping from a callback it runs is logged, not propagated.  It is
+            # an observation (`exc <type>`) which no model step produces.
             st["exc"] = repr(ev)
+            st["obs"].append("exc %s" % et.__name__)
+            swallow = True
         s.steps.append(st)
         s.cur_obs = None
-        return False
+        return swallow
 
 
 class Sim(object):
     def __init__(self, timeout_ms=10000, disconnect_on_timeout=False, hosts=(("boot", 9092),), shuffle_seed=0,
-                 hold_closes=False, cancel_style="plain"):
+                 hold_closes=False, cancel_style="plain", bytes_groups=False, discovery=False):
         import afkak.client as C
         from afkak import KafkaClient
 
@@ -322,6 +353,7 @@ class Sim(object):
         self.nops = 0
         self.boot_conns = {}  # j -> Conn
         self.stray = []  # observations outside any step (must stay empty)
+        self.nexc = 0
         self.pending_annot = []
         self.ltp_frames, self.ltp_keep, self.cur_ltp, self.nltp = {}, [], None, 0
         self.payload_ids = {}  # id(payload object) -> (op, index); the objects are kept alive in self.ops
@@ -330,6 +362,8 @@ class Sim(object):
         self.boot_meta_all = {}  # bootstrap attempt j -> its metadata request asked for all topics
         self.hold_closes = hold_closes  # connection-closed notifications are delivered only by `notify`
         self.cancel_style = cancel_style
+        # group names handed to the client as bytes (accepted everywhere a str is: `_coerce_consumer_group`)
+        self.bytes_groups = bytes_groups
         self.released = set()  # cids whose close notification may be delivered
         self.boot_gone = set()
         self._install_conn_hook()
@@ -353,7 +387,7 @@ class Sim(object):
         self.cfg_line = "cfg %s %d %s 1/2" % (rat(self.timeout), 1 if disconnect_on_timeout else 0, CC.lst("%s:%d" % hp for hp in self.hosts))
         self.client = KafkaClient(
             ",".join("%s:%d" % hp for hp in hosts), timeout=timeout_ms, disconnect_on_timeout=disconnect_on_timeout,
-            reactor=self.clock, endpoint_factory=self.net, enable_protocol_version_discovery=False, retry_policy=lambda n: 0.5,
+            reactor=self.clock, endpoint_factory=self.net, enable_protocol_version_discovery=discovery, retry_policy=lambda n: 0.5,
         )
 
     def dispose(self):
@@ -488,6 +522,7 @@ class Sim(object):
 
         o = self.new_op()
         c = self.client
+        garg = group.encode() if (group is not None and self.bytes_groups) else group
         if api == "produce":
             payloads = [K.ProduceRequest(t, p, []) for t, p in keys]
             call = lambda: c.send_produce_request(payloads, acks=1 if expect else 0, fail_on_error=foe)
@@ -499,10 +534,10 @@ class Sim(object):
             call = lambda: c.send_offset_request(payloads, fail_on_error=foe)
         elif api == "commit":
             payloads = [K.OffsetCommitRequest(t, p, 5, -1, b"") for t, p in keys]
-            call = lambda: c.send_offset_commit_request(group, payloads, fail_on_error=foe)
+            call = lambda: c.send_offset_commit_request(garg, payloads, fail_on_error=foe)
         elif api == "ofetch":
             payloads = [K.OffsetFetchRequest(t, p) for t, p in keys]
-            call = lambda: c.send_offset_fetch_request(group, payloads, fail_on_error=foe)
+            call = lambda: c.send_offset_fetch_request(garg, payloads, fail_on_error=foe)
         else:
             raise ValueError(api)
         with self.step("send %d %s %d %d %s" % (o, group or "-", 1 if foe else 0, 1 if expect else 0, CC.fmt_keys(keys))):
@@ -521,7 +556,7 @@ class Sim(object):
     def api_cload(self, g):
         o = self.new_op()
         with self.step("cload %d %s" % (o, g)):
-            d = self.client.load_coordinator_for_group(g)
+            d = self.client.load_coordinator_for_group(g.encode() if self.bytes_groups else g)
             self._watch(o, d)
         self.settle()
         return o
@@ -533,7 +568,7 @@ class Sim(object):
         o = self.new_op()
         kw = {} if min_timeout is None else {"min_timeout": float(min_timeout)}
         with self.step("srtc %d %s %s" % (o, g, "-" if min_timeout is None else rat(Fraction(min_timeout)))):
-            d = self.client._send_request_to_coordinator(g, _LeaveGroupRequest(g, "m"), KafkaCodec.encode_leave_group_request, KafkaCodec.decode_leave_group_response, **kw)
+            d = self.client._send_request_to_coordinator(g.encode() if self.bytes_groups else g, _LeaveGroupRequest(g, "m"), KafkaCodec.encode_leave_group_request, KafkaCodec.decode_leave_group_response, **kw)
             self._watch(o, d)
         self.settle()
         return o
@@ -587,8 +622,14 @@ class Sim(object):
             for c in list(self.net.conns):
                 if self.hold_closes and (c.ct.disconnecting or c.st.disconnecting) and c.cid not in self.released and not c.ct.disconnected:
                     continue
-                if c.pump.flush():
-                    moved = True
+                try:
+                    if c.pump.flush():
+                        moved = True
+                except Exception as e:
+                    # outside any step: ends up in `stray` (reported as a disagreement)
+                    self.obs("exc %s" % type(e).__name__)
+                    self.nexc += 1
+                    moved = self.nexc < 20
         for j, c in self.boot_conns.items():
             if j not in self.boot_gone and (c.closed or c.ct.disconnected):
                 self.boot_gone.add(j)
@@ -769,10 +810,13 @@ class Sim(object):
         for st in self.steps:
             lines.append("t-ev " + st["line"])
             for o in st["obs"]:
-                lines.append(o if o.startswith("t-") else "t-ob " + o)
+                lines.append(o if o.startswith("t-") else "t-exc " + o[4:] if o.startswith("exc ") else "t-ob " + o)
             if st["dump"] is not None:
                 lines.append("t-dump " + six(st["dump"]))
                 lines.append("t-timers " + CC.lst("%s@%s" % (nm, rat(Fraction(t).limit_denominator(10**9))) for t, nm in st["timers"]))
+        for o in self.stray:
+            if o.startswith("exc "):
+                lines.append("t-exc " + o[4:])
         if self.close_log_idx is not None:
             for e in self.net.log[self.close_log_idx:]:
                 if e[0] == "connect":
